@@ -128,7 +128,7 @@ META = dict(
          "and the handler thread was started - in every reachable state that means the handler was called and has not returned; a cancel before the block message keeps the request (node stays busy) and the later block "
          "message is skipped to exactly its length; an in-progress cancel closes the connection, disarms onStop and gives a started handler the end of its stream; RequestBlock while busy is refused and changes nothing; "
          "onStop is invoked at the end of run() at most once, only for an outstanding, uncancelled request whose handler was not started, and always for such a request. Tied to bitcoin_node.go / handlers.go by the `node` "
-         "stream: a scripted peer delivering the requested block whole, in pieces cut at every kind of position, wrong, or never, with cancels and peer drops at each point.",
+         "stream: a scripted peer delivering the requested block whole, in pieces cut at every kind of position, wrong, or never, with cancels and peer drops at each point, incl. a peer drop DURING a cancel (closecancel). Two simultaneous successful downloads of one block (monitor-only stream blkrace). The mutex / channel / callback discipline of 23 functions is regenerated from the source (C16_sync_traces_in_source).",
     note=COMMON_NOTE + "The downloader model is nondeterministic; the driver tracks the set of model states compatible with the observations and rejects an observation the model does not allow. "
          "Timers (2 min, 1 h, 60 x 10 s) are literals in the code and are not exercised; interleavings finer than a call are covered by the proofs only. "
          "Findings, none a C16 violation: (1) Stop between the handler's Started and Run consuming it makes Run return 'cancelled' while the handler may still confirm the block "
